@@ -81,6 +81,77 @@ Definition config_get_spec (c : config) (p : pkgname) (l : level) : Prop :=
   (~ In p (map fst c) -> In 0%N (map fst c) -> cfg_find c 0%N = Some l) /\
   (~ In p (map fst c) -> ~ In 0%N (map fst c) -> l = Major).
 
+(* ---- NewConfigFromStrings: every spec is "pkg:level" (split at the LAST colon; without a colon the
+   whole spec is the level and pkg is empty = the default); levels are the exact lower-case words; invalid
+   specs are ignored; a later spec for the same pkg overwrites an earlier one. Strings are byte lists. *)
+Definition str := list N.
+
+Fixpoint str_eqb (a b : str) : bool :=
+  match a, b with
+  | [], [] => true
+  | x :: a', y :: b' => N.eqb x y && str_eqb a' b'
+  | _, _ => false
+  end.
+
+(* strings.LastIndex(c, ":") as a split: (text before the last colon, text after it) *)
+Fixpoint split_last_colon (s : str) : option (str * str) :=
+  match s with
+  | [] => None
+  | c :: s' =>
+      match split_last_colon s' with
+      | Some (p, l) => Some (c :: p, l)
+      | None => if N.eqb c 58 then Some ([], s') else None
+      end
+  end.
+
+Definition level_word (w : str) : option level :=
+  if str_eqb w [109;97;106;111;114]%N then Some Major           (* "major" *)
+  else if str_eqb w [109;105;110;111;114]%N then Some Minor      (* "minor" *)
+  else if str_eqb w [112;97;116;99;104]%N then Some Patch        (* "patch" *)
+  else if str_eqb w [110;111;110;101]%N then Some LNone          (* "none" *)
+  else None.
+
+Definition spec_entry (s : str) : option (str * level) :=
+  let '(p, w) := match split_last_colon s with Some pw => pw | None => ([], s) end in
+  match level_word w with Some l => Some (p, l) | None => None end.
+
+Definition sconfig := list (str * level).
+
+Fixpoint sconfig_set (c : sconfig) (k : str) (l : level) : sconfig :=
+  match c with
+  | [] => [(k, l)]
+  | (k', l') :: c' => if str_eqb k' k then (k, l) :: c' else (k', l') :: sconfig_set c' k l
+  end.
+
+Definition config_parse (specs : list str) : sconfig :=
+  fold_left (fun c s => match spec_entry s with Some (k, l) => sconfig_set c k l | None => c end) specs [].
+
+Fixpoint sconfig_find (c : sconfig) (k : str) : option level :=
+  match c with
+  | [] => None
+  | (k', l) :: c' => if str_eqb k' k then Some l else sconfig_find c' k
+  end.
+
+Definition sconfig_get (c : sconfig) (k : str) : level :=
+  match sconfig_find c k with
+  | Some l => l
+  | None => match sconfig_find c [] with Some l => l | None => Major end
+  end.
+
+(* specification: the LAST valid spec naming the package decides, else the last valid default spec,
+   else major *)
+Definition last_for (specs : list str) (k : str) : option level :=
+  fold_left (fun r s => match spec_entry s with
+                        | Some (k', l) => if str_eqb k' k then Some l else r
+                        | None => r
+                        end) specs None.
+
+Definition config_parse_get_spec (specs : list str) (k : str) : level :=
+  match last_for specs k with
+  | Some l => l
+  | None => match last_for specs [] with Some l => l | None => Major end
+  end.
+
 (* ---- the shape deps.dev's Difference is assumed to have: versions carry a major, minor and
    patch number and a remainder (prerelease / build / further elements); Difference names the
    first of these that differs. Boolean form, used to validate the assumption on recorded
